@@ -13,7 +13,7 @@ import time
 from pathlib import Path
 
 ROOT = Path(__file__).resolve().parent.parent
-WT = Path("/tmp/seedwt")
+WT = Path(os.environ.get("SEED_WT", "/tmp/seedwt"))
 
 
 def sh(cmd, cwd=None, env=None, timeout=1800):
